@@ -89,3 +89,10 @@ Definition mkR (n : str) (fs cs attr sys : Z) : raw_entry :=
   {| r_name := n; r_file_size := fs; r_compress_size := cs; r_external_attr := attr; r_create_system := sys |}.
 Definition corr_validate_raw (c : limits * list raw_entry * Z) : bool :=
   let '(L, rs, want) := c in code_of (validate_raw L rs) =? want.
+
+(* sessions: (calls, implementation's result codes in order) *)
+From S2T Require Import C11.ModelSession.
+Fixpoint zs_eqb (x y : list Z) : bool :=
+  match x, y with [] , [] => true | a :: r, b :: r' => (a =? b) && zs_eqb r r' | _, _ => false end.
+Definition corr_session (c : list call * list Z) : bool :=
+  let '(cs, want) := c in zs_eqb (map bcode (run_session cs)) want.
